@@ -7,9 +7,16 @@
    app/ts-meta/meta storeFSM.executeCmd.
    Names are integer codes (0 = the empty string); instants and durations are unbounded Z nanoseconds; ids are Z.
    The catalogue is kept flat: policies carry the name of their database.
-   Two switches select today's code or the minimal repair of the two defects found:
-     clip     : a new shard group is clipped to its live neighbours            (false = today's code)
-     cleardef : dropping the default policy clears the database's default name (false = today's code) *)
+   Switches select the code before or after each repair of a defect found (arguments of the step function, or constant
+   fields of the state):
+     clip        : a new shard group is clipped to its live neighbours            (false = today's code; finding open)
+     cleardef    : dropping the default policy clears the database's default name (/repo b424c13)
+     clampst     : group starts are clamped to models.MinNanoTime                 (/repo 3695b47)
+     schemafirst : CreateMeasurement checks its schema list before registering    (/repo f21700b)
+     rekey       : a policy rename moves the map entry and the default name       (/repo f36a23d)
+     safecancel  : cancelling a group deletion is refused over a live group       (false = today's code; finding open)
+   Index groups are created as in /repo 76d3742 (never ending before the shard group they serve), pruning marks only the
+   element carrying the pruned id (/repo b988d37). *)
 From Coq Require Import ZArith List Bool.
 Import ListNotations.
 Open Scope Z_scope.
@@ -33,55 +40,66 @@ Record sgroup := { sg_id : Z; sg_start : Z; sg_end : Z; sg_del : bool; sg_eng : 
 Record index := { ix_id : Z; ix_owners : list Z; ix_mark : bool }.
 Record igroup := { ig_id : Z; ig_start : Z; ig_end : Z; ig_del : bool; ig_eng : Z; ig_indexes : list index }.
 Record mst := { ms_name : Z; ms_ver : Z; ms_id : Z; ms_mark : bool }.
-Record policy := { rp_db : Z; rp_name : Z; rp_dur : Z; rp_sgdur : Z; rp_igdur : Z; rp_mark : bool;
+(* rp_name is the KEY of the policy in DatabaseInfo.RetentionPolicies (what every lookup uses); rp_nm is the Name field of the
+   RetentionPolicyInfo. They differ only after a rename in the code variant that does not re-key the map (rekey = false). *)
+Record policy := { rp_db : Z; rp_name : Z; rp_nm : Z; rp_dur : Z; rp_sgdur : Z; rp_igdur : Z; rp_mark : bool;
                    rp_msts : list mst; rp_vers : list (Z * Z); rp_sgs : list sgroup; rp_igs : list igroup }.
 Record database := { db_name : Z; db_default : Z (* 0 = none *); db_mark : bool }.
 Record node := { nd_id : Z; nd_http : Z; nd_tcp : Z; nd_conn : Z }.
 Record ptinfo := { pt_owner : Z; pt_status : Z; pt_ver : Z }.
 Record cat := { dbs : list database; pols : list policy; nodes : list node; ptview : list (Z * list ptinfo);
                 ptnum : Z; ptper : Z; sclean : bool;
-                clampst : bool;   (* code variant, constant: group starts are clamped to models.MinNanoTime (false = today's code) *)
+                clampst : bool;   (* code variant, constant: group starts are clamped to models.MinNanoTime (false = before /repo 3695b47) *)
+                schemafirst : bool; (* code variant, constant: CreateMeasurement refuses an inconsistent schema list before it registers
+                                       the measurement (false = before /repo f21700b) *)
+                rekey : bool;     (* code variant, constant: a policy rename moves the map entry and the default name (false = before /repo f36a23d) *)
+                safecancel : bool; (* code variant, constant: cancelling the deletion of a shard group is refused while a live group of the same
+                                      engine type overlaps it (false = today's code) *)
                 max_node : Z; max_sg : Z; max_sh : Z; max_mst : Z; max_ig : Z; max_ix : Z; max_conn : Z }.
 
-Definition init_cat_v (per : Z) (sc cl : bool) : cat :=
+Definition init_cat_o (per : Z) (sc cl sf rk sca : bool) : cat :=
   {| dbs := []; pols := []; nodes := []; ptview := []; ptnum := 0; ptper := per; sclean := sc; clampst := cl;
+     schemafirst := sf; rekey := rk; safecancel := sca;
      max_node := 0; max_sg := 0; max_sh := 0; max_mst := 0; max_ig := 0; max_ix := 0; max_conn := 0 |}.
-(* today's creation (no clamping) *)
+Definition init_cat_v (per : Z) (sc cl : bool) : cat := init_cat_o per sc cl false false false.
+(* the snapshot the verification started from (none of the repairs) *)
 Definition init_cat (per : Z) (sc : bool) : cat := init_cat_v per sc false.
+(* every repair: the catalogue Props.v proves well-formedness for *)
+Definition init_cat_rep (per : Z) (sc : bool) : cat := init_cat_o per sc true true true true.
 
 (* ---- record updates ---- *)
 Definition set_pols (c : cat) (l : list policy) : cat :=
-  {| dbs := dbs c; pols := l; nodes := nodes c; ptview := ptview c; ptnum := ptnum c; ptper := ptper c; sclean := sclean c; clampst := clampst c;
+  {| dbs := dbs c; pols := l; nodes := nodes c; ptview := ptview c; ptnum := ptnum c; ptper := ptper c; sclean := sclean c; clampst := clampst c; schemafirst := schemafirst c; rekey := rekey c; safecancel := safecancel c;
      max_node := max_node c; max_sg := max_sg c; max_sh := max_sh c; max_mst := max_mst c; max_ig := max_ig c;
      max_ix := max_ix c; max_conn := max_conn c |}.
 Definition set_dbs (c : cat) (l : list database) : cat :=
-  {| dbs := l; pols := pols c; nodes := nodes c; ptview := ptview c; ptnum := ptnum c; ptper := ptper c; sclean := sclean c; clampst := clampst c;
+  {| dbs := l; pols := pols c; nodes := nodes c; ptview := ptview c; ptnum := ptnum c; ptper := ptper c; sclean := sclean c; clampst := clampst c; schemafirst := schemafirst c; rekey := rekey c; safecancel := safecancel c;
      max_node := max_node c; max_sg := max_sg c; max_sh := max_sh c; max_mst := max_mst c; max_ig := max_ig c;
      max_ix := max_ix c; max_conn := max_conn c |}.
 Definition set_ptview (c : cat) (l : list (Z * list ptinfo)) : cat :=
-  {| dbs := dbs c; pols := pols c; nodes := nodes c; ptview := l; ptnum := ptnum c; ptper := ptper c; sclean := sclean c; clampst := clampst c;
+  {| dbs := dbs c; pols := pols c; nodes := nodes c; ptview := l; ptnum := ptnum c; ptper := ptper c; sclean := sclean c; clampst := clampst c; schemafirst := schemafirst c; rekey := rekey c; safecancel := safecancel c;
      max_node := max_node c; max_sg := max_sg c; max_sh := max_sh c; max_mst := max_mst c; max_ig := max_ig c;
      max_ix := max_ix c; max_conn := max_conn c |}.
 Definition set_sg_counters (c : cat) (sg sh ig ix : Z) : cat :=
-  {| dbs := dbs c; pols := pols c; nodes := nodes c; ptview := ptview c; ptnum := ptnum c; ptper := ptper c; sclean := sclean c; clampst := clampst c;
+  {| dbs := dbs c; pols := pols c; nodes := nodes c; ptview := ptview c; ptnum := ptnum c; ptper := ptper c; sclean := sclean c; clampst := clampst c; schemafirst := schemafirst c; rekey := rekey c; safecancel := safecancel c;
      max_node := max_node c; max_sg := sg; max_sh := sh; max_mst := max_mst c; max_ig := ig;
      max_ix := ix; max_conn := max_conn c |}.
 Definition set_max_mst (c : cat) (m : Z) : cat :=
-  {| dbs := dbs c; pols := pols c; nodes := nodes c; ptview := ptview c; ptnum := ptnum c; ptper := ptper c; sclean := sclean c; clampst := clampst c;
+  {| dbs := dbs c; pols := pols c; nodes := nodes c; ptview := ptview c; ptnum := ptnum c; ptper := ptper c; sclean := sclean c; clampst := clampst c; schemafirst := schemafirst c; rekey := rekey c; safecancel := safecancel c;
      max_node := max_node c; max_sg := max_sg c; max_sh := max_sh c; max_mst := m; max_ig := max_ig c;
      max_ix := max_ix c; max_conn := max_conn c |}.
 
 Definition pol_set_meta (p : policy) (d sgd igd : Z) (mk : bool) : policy :=
-  {| rp_db := rp_db p; rp_name := rp_name p; rp_dur := d; rp_sgdur := sgd; rp_igdur := igd; rp_mark := mk;
+  {| rp_db := rp_db p; rp_name := rp_name p; rp_nm := rp_nm p; rp_dur := d; rp_sgdur := sgd; rp_igdur := igd; rp_mark := mk;
      rp_msts := rp_msts p; rp_vers := rp_vers p; rp_sgs := rp_sgs p; rp_igs := rp_igs p |}.
 Definition pol_set_msts (p : policy) (ms : list mst) (vs : list (Z * Z)) : policy :=
-  {| rp_db := rp_db p; rp_name := rp_name p; rp_dur := rp_dur p; rp_sgdur := rp_sgdur p; rp_igdur := rp_igdur p; rp_mark := rp_mark p;
+  {| rp_db := rp_db p; rp_name := rp_name p; rp_nm := rp_nm p; rp_dur := rp_dur p; rp_sgdur := rp_sgdur p; rp_igdur := rp_igdur p; rp_mark := rp_mark p;
      rp_msts := ms; rp_vers := vs; rp_sgs := rp_sgs p; rp_igs := rp_igs p |}.
 Definition pol_set_sgs (p : policy) (l : list sgroup) : policy :=
-  {| rp_db := rp_db p; rp_name := rp_name p; rp_dur := rp_dur p; rp_sgdur := rp_sgdur p; rp_igdur := rp_igdur p; rp_mark := rp_mark p;
+  {| rp_db := rp_db p; rp_name := rp_name p; rp_nm := rp_nm p; rp_dur := rp_dur p; rp_sgdur := rp_sgdur p; rp_igdur := rp_igdur p; rp_mark := rp_mark p;
      rp_msts := rp_msts p; rp_vers := rp_vers p; rp_sgs := l; rp_igs := rp_igs p |}.
 Definition pol_set_igs (p : policy) (l : list igroup) : policy :=
-  {| rp_db := rp_db p; rp_name := rp_name p; rp_dur := rp_dur p; rp_sgdur := rp_sgdur p; rp_igdur := rp_igdur p; rp_mark := rp_mark p;
+  {| rp_db := rp_db p; rp_name := rp_name p; rp_nm := rp_nm p; rp_dur := rp_dur p; rp_sgdur := rp_sgdur p; rp_igdur := rp_igdur p; rp_mark := rp_mark p;
      rp_msts := rp_msts p; rp_vers := rp_vers p; rp_sgs := rp_sgs p; rp_igs := l |}.
 
 (* ---- lookups ---- *)
@@ -125,7 +143,7 @@ Definition spec_valid (d sgd : Z) : bool :=
   negb (negb (d =? 0) && (d <? HOUR)) && negb (negb (d =? 0) && (d <? sgd)).
 
 Definition new_policy (db n d sgd igd : Z) : policy :=
-  {| rp_db := db; rp_name := n; rp_dur := d; rp_sgdur := sgd; rp_igdur := igd; rp_mark := false;
+  {| rp_db := db; rp_name := n; rp_nm := n; rp_dur := d; rp_sgdur := sgd; rp_igdur := igd; rp_mark := false;
      rp_msts := []; rp_vers := []; rp_sgs := []; rp_igs := [] |}.
 
 (* ---- commands ---- *)
@@ -149,7 +167,11 @@ Inductive cmd :=
 | CreateNode (http tcp : Z)
 | CreatePtView (db : Z)
 | UpdatePt (db pt cowner cstat owner status : Z)
-| Restore.                                            (* snapshot (clone, marshal) and restore (unmarshal) of the whole catalogue *)
+| Restore                                             (* snapshot (clone, marshal) and restore (unmarshal) of the whole catalogue *)
+| CreateMstBad (db rp m : Z)                          (* CreateMeasurement whose schema list names a field twice with different types *)
+| RenameRp (db rp nn : Z) (d sgd : option Z) (mkdef : bool)   (* UpdateRetentionPolicy carrying NewName *)
+| CancelDeleteSg (db rp id : Z)                       (* DeleteShardGroup with DeleteType = CancelDelete (RevertRetentionPolicyDelete) *)
+| RemoveNode (id : Z).                                (* RemoveNodeCommand for one data node *)
 
 Definition ok (c : cat) : cat * bool := (c, true).
 Definition err (c : cat) : cat * bool := (c, false).
@@ -175,10 +197,14 @@ Definition mark_db (c : cat) (db : Z) : cat * bool :=
               else ok (upd_db c db (fun x => {| db_name := db_name x; db_default := db_default x; db_mark := true |}))
   end.
 
+(* storeFSM.applyDropDatabaseCommand returns before Data.DropDatabase for an unknown database: its partition view, if the
+   server created one ahead of the database, stays *)
 Definition drop_db (c : cat) (db : Z) : cat * bool :=
+  match find_db c db with None => ok c | Some _ =>
   ok (set_ptview (set_pols (set_dbs c (filter (fun d => negb (db_name d =? db)) (dbs c)))
                            (filter (fun p => negb (rp_db p =? db)) (pols c)))
-                 (filter (fun e => negb (fst e =? db)) (ptview c))).
+                 (filter (fun e => negb (fst e =? db)) (ptview c)))
+  end.
 
 (* -- retention policies -- *)
 Definition set_default (c : cat) (db n : Z) : cat :=
@@ -215,6 +241,35 @@ Definition update_rp (c : cat) (db rp : Z) (d sgd : option Z) (mkdef : bool) : c
       if negb (spec_valid d' sgd') then err c else
       let c1 := upd_pol c db (rp_name p) (fun q => pol_set_meta q d' sgd' igd' (rp_mark q)) in
       ok (if mkdef then set_default c1 db (rp_name p) else c1)
+  end.
+
+(* UpdateRetentionPolicy with NewName = nn. checkUpdateRetentionPolicyName compares nn with the command's literal name and
+   otherwise looks nn up like any policy name (the empty name is the default policy; marked policies count). With rekey
+   the entry moves to the new key and a default naming the old key follows; without, only the Name field changes (and
+   makeDefault stores a name that is not a key). *)
+Definition pol_rename (p : policy) (key nm : Z) : policy :=
+  {| rp_db := rp_db p; rp_name := key; rp_nm := nm; rp_dur := rp_dur p; rp_sgdur := rp_sgdur p; rp_igdur := rp_igdur p; rp_mark := rp_mark p;
+     rp_msts := rp_msts p; rp_vers := rp_vers p; rp_sgs := rp_sgs p; rp_igs := rp_igs p |}.
+
+Definition rename_rp (c : cat) (db rp nn : Z) (d sgd : option Z) (mkdef : bool) : cat * bool :=
+  match get_db c db, get_pol c db rp with
+  | Some x, Some p =>
+      let taken := if nn =? rp then false else
+                   let k := resolve x nn in
+                   if k =? 0 then false else match find_pol c db k with Some _ => true | None => false end in
+      if taken then err c else
+      let d' := opt_or d (rp_dur p) in
+      let sgd' := norm_sgd (opt_or sgd (rp_sgdur p)) d' in
+      let igd' := norm_igd (rp_igdur p) sgd' in
+      if negb (spec_valid d' sgd') then err c else
+      let old := rp_name p in
+      if rekey c then
+        let c1 := upd_pol c db old (fun q => pol_rename (pol_set_meta q d' sgd' igd' (rp_mark q)) nn nn) in
+        ok (if mkdef || (db_default x =? rp_nm p) then set_default c1 db nn else c1)
+      else
+        let c1 := upd_pol c db old (fun q => pol_rename (pol_set_meta q d' sgd' igd' (rp_mark q)) old nn) in
+        ok (if mkdef then set_default c1 db nn else c1)
+  | _, _ => err c
   end.
 
 Definition mark_rp (c : cat) (db rp : Z) : cat * bool :=
@@ -270,6 +325,24 @@ Definition create_mst (c : cat) (db rp m : Z) : cat * bool :=
       end
   end.
 
+(* CreateMeasurement with a schema list that names one field twice with different types. A measurement that exists (same
+   shard key) is left alone and the command succeeds; otherwise the code before f21700b registered the measurement and then
+   failed in UpdateSchema: a failed command that changed the catalogue. *)
+Definition create_mst_bad (c : cat) (db rp m : Z) : cat * bool :=
+  match get_pol c db rp with
+  | None => err c
+  | Some p =>
+      let add v := if schemafirst c then err c else (add_mst c p m v, false) in
+      match assoc m (rp_vers p) with
+      | None => add 0
+      | Some v =>
+          match find_mst p m v with
+          | None => add (Z.land (v + 1) 65535)
+          | Some x => if ms_mark x then add (Z.land (v + 1) 65535) else ok c
+          end
+      end
+  end.
+
 Definition mark_one (x : mst) : mst := {| ms_name := ms_name x; ms_ver := ms_ver x; ms_id := ms_id x; ms_mark := true |}.
 
 Definition mark_mst (c : cat) (db rp m : Z) : cat * bool :=
@@ -312,21 +385,23 @@ Fixpoint insert_ig (g : igroup) (l : list igroup) : list igroup :=
 (* ids n, n+1, .. : k consecutive numbers starting at a *)
 Fixpoint zseq (a : Z) (k : nat) : list Z := match k with O => [] | S k' => a :: zseq (a + 1) k' end.
 
-(* createIndexGroupIfNeeded: the LAST index group of that engine type containing the instant (deleted or not) is
-   reused if it has at least ptnum indexes; otherwise a new one is created *)
-Definition ig_match (t eng : Z) (g : igroup) : bool := (ig_eng g =? eng) && (ig_start g <=? t) && (t <? ig_end g).
+(* createIndexGroupCovering(t, e): the LAST index group of that engine type that contains the instant t (deleted or not)
+   and does not end before e - the end of the shard group it is to serve - is reused if it has at least ptnum indexes;
+   otherwise createIndexGroupUntil makes a new one: the cell of t for the policy's index-group duration, stretched to e *)
+Definition ig_match (t e eng : Z) (g : igroup) : bool := (ig_eng g =? eng) && (ig_start g <=? t) && (t <? ig_end g) && (e <=? ig_end g).
 Definition find_last {A} (f : A -> bool) (l : list A) : option A := find f (rev l).
 
-Definition new_igroup (c : cat) (p : policy) (t eng : Z) : igroup :=
+Definition new_igroup (c : cat) (p : policy) (t e eng : Z) : igroup :=
   let s := trunc t (rp_igdur p) in
-  {| ig_id := max_ig c + 1; ig_start := if clampst c then Z.max s MINNANO else s; ig_end := cell_end s (rp_igdur p); ig_del := false; ig_eng := eng;
+  {| ig_id := max_ig c + 1; ig_start := if clampst c then Z.max s MINNANO else s;
+     ig_end := Z.min (Z.max (s + rp_igdur p) e) MAXNANO1; ig_del := false; ig_eng := eng;
      ig_indexes := map (fun i => {| ix_id := max_ix c + 1 + i; ix_owners := [i]; ix_mark := false |}) (zseq 0 (Z.to_nat (ptnum c))) |}.
 
 (* returns the index group to use and whether it is new *)
-Definition ensure_ig (c : cat) (p : policy) (t eng : Z) : igroup * bool :=
-  match find_last (ig_match t eng) (rp_igs p) with
-  | Some g => if Z.of_nat (length (ig_indexes g)) >=? ptnum c then (g, false) else (new_igroup c p t eng, true)
-  | None => (new_igroup c p t eng, true)
+Definition ensure_ig (c : cat) (p : policy) (t e eng : Z) : igroup * bool :=
+  match find_last (ig_match t e eng) (rp_igs p) with
+  | Some g => if Z.of_nat (length (ig_indexes g)) >=? ptnum c then (g, false) else (new_igroup c p t e eng, true)
+  | None => (new_igroup c p t e eng, true)
   end.
 
 (* the minimal repair: clip [s, e) to the live neighbours of the same engine type around t *)
@@ -335,13 +410,17 @@ Definition clip_lo (l : list sgroup) (eng t s : Z) : Z :=
 Definition clip_hi (l : list sgroup) (eng t e : Z) : Z :=
   fold_left (fun acc g => if (sg_eng g =? eng) && negb (sg_del g) && (t <? sg_start g) then Z.min acc (sg_start g) else acc) l e.
 
+(* the end of the group newShardGroup makes for the instant t *)
+Definition new_sg_end (clip : bool) (p : policy) (t eng : Z) : Z :=
+  let e := cell_end (trunc t (rp_sgdur p)) (rp_sgdur p) in
+  if clip then clip_hi (rp_sgs p) eng t e else e.
+
 Definition new_sgroup (clip : bool) (c : cat) (p : policy) (ig : igroup) (t eng : Z) : sgroup :=
   let s := trunc t (rp_sgdur p) in
-  let e := cell_end s (rp_sgdur p) in
   let s0 := if clampst c then Z.max s MINNANO else s in   (* the first cell of the time domain begins before int64 ns *)
   {| sg_id := max_sg c + 1;
      sg_start := if clip then clip_lo (rp_sgs p) eng t s0 else s0;
-     sg_end := if clip then clip_hi (rp_sgs p) eng t e else e;
+     sg_end := new_sg_end clip p t eng;
      sg_del := false; sg_eng := eng; sg_dur := rp_sgdur p;
      sg_shards := map (fun i => {| sh_id := max_sh c + 1 + i; sh_owners := [i];
                                    sh_index := ix_id (nth (Z.to_nat i) (ig_indexes ig) {| ix_id := 0; ix_owners := []; ix_mark := false |});
@@ -357,7 +436,7 @@ Definition create_sg (clip : bool) (c : cat) (db rp t eng : Z) : cat * bool :=
       match rp_msts p with
       | [] => err c
       | _ :: _ =>
-          let '(ig, isnew) := ensure_ig c p t eng in
+          let '(ig, isnew) := ensure_ig c p t (new_sg_end clip p t eng) eng in
           let g := new_sgroup clip c p ig t eng in
           let c1 := upd_pol c db (rp_name p)
                       (fun q => pol_set_sgs (if isnew then pol_set_igs q (insert_ig ig (rp_igs q)) else q) (insert_sg g (rp_sgs q))) in
@@ -376,14 +455,33 @@ Definition delete_sg (c : cat) (db rp id : Z) : cat * bool :=
   | None => err c
   | Some p => ok (upd_pol c db (rp_name p) (fun q => pol_set_sgs q (upd_first (fun g => sg_id g =? id) sg_set_del (rp_sgs q))))
   end.
+(* DeleteShardGroup with CancelDelete: the deletion stamp of the group with that id is cleared. Repair (safecancel): not
+   while a live group of the same engine type overlaps it - a group created for that span while this one was deleted. *)
+Definition sg_set_live (g : sgroup) : sgroup :=
+  {| sg_id := sg_id g; sg_start := sg_start g; sg_end := sg_end g; sg_del := false; sg_eng := sg_eng g; sg_dur := sg_dur g; sg_shards := sg_shards g |}.
+Definition overlaps_live (l : list sgroup) (g : sgroup) : bool :=
+  existsb (fun x => negb (sg_del x) && (sg_eng x =? sg_eng g) && (sg_start x <? sg_end g) && (sg_start g <? sg_end x)) l.
+Definition cancel_delete_sg (c : cat) (db rp id : Z) : cat * bool :=
+  match get_pol c db rp with
+  | None => err c
+  | Some p =>
+      match find (fun g => sg_id g =? id) (rp_sgs p) with
+      | None => ok c
+      | Some g =>
+          if negb (sg_del g) then ok c else
+          if safecancel c && overlaps_live (rp_sgs p) g then ok c else
+          ok (upd_pol c db (rp_name p) (fun q => pol_set_sgs q (upd_first (fun g => sg_id g =? id) sg_set_live (rp_sgs q))))
+      end
+  end.
+
 Definition delete_ig (c : cat) (db rp id : Z) : cat * bool :=
   match get_pol c db rp with
   | None => err c
   | Some p => ok (upd_pol c db (rp_name p) (fun q => pol_set_igs q (upd_first (fun g => ig_id g =? id) ig_set_del (rp_igs q))))
   end.
 
-(* pruneShardGroups id: in every policy, mark the shard (first with id >= the argument, as sort.Search) inside the group
-   whose id range contains the argument; drop groups that are deleted and whose shards are all marked. With schema
+(* pruneShardGroups id: in every policy, inside each group whose id range [first, last] contains the argument, the first shard
+   with id >= the argument (sort.Search) is marked if it carries exactly that id; drop groups that are deleted and whose shards are all marked. With schema
    cleaning on, a policy that lost a group has the current version of every measurement (schemas are empty in the modelled
    subset) marked for deletion, provided its database and itself are not being deleted. *)
 Definition sh_set_mark (x : shard) : shard := {| sh_id := sh_id x; sh_owners := sh_owners x; sh_index := sh_index x; sh_mark := true |}.
@@ -396,12 +494,12 @@ Definition last_ix (l : list index) : Z := ix_id (last l {| ix_id := 0; ix_owner
 Definition prune_mark_sg (id : Z) (g : sgroup) : sgroup :=
   if (first_sh (sg_shards g) <=? id) && (id <=? last_sh (sg_shards g)) then
     {| sg_id := sg_id g; sg_start := sg_start g; sg_end := sg_end g; sg_del := sg_del g; sg_eng := sg_eng g; sg_dur := sg_dur g;
-       sg_shards := upd_first (fun x => id <=? sh_id x) sh_set_mark (sg_shards g) |}
+       sg_shards := upd_first (fun x => id <=? sh_id x) (fun x => if sh_id x =? id then sh_set_mark x else x) (sg_shards g) |}
   else g.
 Definition prune_mark_ig (id : Z) (g : igroup) : igroup :=
   if (first_ix (ig_indexes g) <=? id) && (id <=? last_ix (ig_indexes g)) then
     {| ig_id := ig_id g; ig_start := ig_start g; ig_end := ig_end g; ig_del := ig_del g; ig_eng := ig_eng g;
-       ig_indexes := upd_first (fun x => id <=? ix_id x) ix_set_mark (ig_indexes g) |}
+       ig_indexes := upd_first (fun x => id <=? ix_id x) (fun x => if ix_id x =? id then ix_set_mark x else x) (ig_indexes g) |}
   else g.
 Definition sg_gone (g : sgroup) : bool := sg_del g && forallb sh_mark (sg_shards g).
 Definition ig_gone (g : igroup) : bool := forallb ix_mark (ig_indexes g).
@@ -427,7 +525,7 @@ Definition OFFLINE : Z := 3.
 Definition fresh_pt (owner : Z) : ptinfo := {| pt_owner := owner; pt_status := OFFLINE; pt_ver := 1 |}.
 
 Definition set_nodes (c : cat) (l : list node) (mn mc pn : Z) (pv : list (Z * list ptinfo)) : cat :=
-  {| dbs := dbs c; pols := pols c; nodes := l; ptview := pv; ptnum := pn; ptper := ptper c; sclean := sclean c; clampst := clampst c;
+  {| dbs := dbs c; pols := pols c; nodes := l; ptview := pv; ptnum := pn; ptper := ptper c; sclean := sclean c; clampst := clampst c; schemafirst := schemafirst c; rekey := rekey c; safecancel := safecancel c;
      max_node := mn; max_sg := max_sg c; max_sh := max_sh c; max_mst := max_mst c; max_ig := max_ig c;
      max_ix := max_ix c; max_conn := mc |}.
 Definition nd_set_conn (v : Z) (n : node) : node := {| nd_id := nd_id n; nd_http := nd_http n; nd_tcp := nd_tcp n; nd_conn := v |}.
@@ -445,6 +543,10 @@ Definition create_node (c : cat) (h t : Z) : cat * bool :=
     let pn := if ptnum c <? want then want else ptnum c in
     ok (set_nodes c l id mc pn
           (map (fun e => (fst e, snd e ++ repeat (fresh_pt id) (Z.to_nat pn - length (snd e)))) (ptview c))).
+
+(* Data.RemoveNode: the node leaves the list; its id is not handed out again (MaxNodeID stays) *)
+Definition remove_node (c : cat) (id : Z) : cat * bool :=
+  ok (set_nodes c (filter (fun n => negb (nd_id n =? id)) (nodes c)) (max_node c) (max_conn c) (ptnum c) (ptview c)).
 
 Definition create_ptview (c : cat) (db : Z) : cat * bool :=
   if existsb (fun e => fst e =? db) (ptview c) then ok c else
@@ -519,6 +621,10 @@ Definition apply (clip cleardef : bool) (c : cat) (x : cmd) : cat * bool :=
   | CreatePtView db => create_ptview c db
   | UpdatePt db pt co cs o s => update_pt c db pt co cs o s
   | Restore => ok (restore_state c)
+  | CreateMstBad db rp m => create_mst_bad c db rp m
+  | RenameRp db rp nn d sgd k => rename_rp c db rp nn d sgd k
+  | CancelDeleteSg db rp id => cancel_delete_sg c db rp id
+  | RemoveNode id => remove_node c id
   end.
 
 Definition apply_current := apply false false.
@@ -586,4 +692,11 @@ Definition wf_b (c : cat) : bool :=
   forallb (default_ok_b c) (dbs c) &&
   forallb (fun e => Z.of_nat (length (snd e)) =? ptnum c) (ptview c) &&
   forallb (fun x => 0 <=? x) [max_sg c; max_sh c; max_ig c; max_ix c; max_mst c; max_node c; ptnum c] &&
-  forallb (fun p => 0 <? rp_sgdur p) (pols c).
+  forallb (fun p => 0 <? rp_sgdur p) (pols c) &&
+  forallb (fun p => rp_nm p =? rp_name p) (pols c).   (* a policy is stored under its name *)
+
+(* ---- the C14 invariant seen from the catalogue: the index group of every shard does not end before the shard's group ---- *)
+Definition ig_of (p : policy) (ix : Z) : list igroup := filter (fun g => existsb (fun i => ix_id i =? ix) (ig_indexes g)) (rp_igs p).
+Definition covered_pol_b (p : policy) : bool :=
+  forallb (fun g => forallb (fun s => forallb (fun ig => sg_end g <=? ig_end ig) (ig_of p (sh_index s))) (sg_shards g)) (rp_sgs p).
+Definition covered_b (c : cat) : bool := forallb covered_pol_b (pols c).
